@@ -21,6 +21,7 @@ type fieldStore struct {
 	field int
 	val   ssa.Value
 	pos   string
+	instr *ssa.Store
 }
 
 // storesToFields enumerates stores to the given fields of named type tn in package pkgRel.
@@ -40,7 +41,7 @@ func storesToFields(c *Ctx, pkgRel string, tn *types.Named, fields map[int]bool)
 				if !types.Identical(deref(fa.X.Type()), tn) {
 					continue
 				}
-				out = append(out, fieldStore{fn: fn, field: fa.Field, val: st.Val, pos: c.pos(st.Pos())})
+				out = append(out, fieldStore{fn: fn, field: fa.Field, val: st.Val, pos: c.pos(st.Pos()), instr: st})
 			}
 		}
 	}
